@@ -416,7 +416,8 @@ impl Hist {
 				num: n,
 				id: sl.id,
 				sender: i,
-				s1: sl.clone(),
+				// (what the counterparty gets is the V4 wire form of the slate)
+				s1: wire(sl),
 				s2: None,
 				fin: None,
 				posted: false,
@@ -478,7 +479,8 @@ impl Hist {
 				num: n,
 				id: sl.id,
 				sender: i,
-				s1: sl.clone(),
+				// (what the counterparty gets is the V4 wire form of the slate)
+				s1: wire(sl),
 				s2: None,
 				fin: None,
 				posted: false,
@@ -524,7 +526,7 @@ impl Hist {
 		let r = guarded(|| self.s.with(payer, |b, m| owner::process_invoice_tx(b, m, &s1, a2, false)));
 		let rc = rc_of(&r);
 		if let Ok(Ok(s2)) = &r {
-			self.flights[f].s2 = Some(s2.clone());
+			self.flights[f].s2 = Some(wire(s2));
 			self.flights[f].payer = Some(payer);
 		}
 		self.record(
@@ -610,7 +612,7 @@ impl Hist {
 		if let Ok(Ok(s2)) = &r {
 			// (a self-send, delivered to the sending wallet itself, is a complete exchange too)
 			if !tampered {
-				self.flights[f].s2 = Some(s2.clone());
+				self.flights[f].s2 = Some(wire(s2));
 			}
 		}
 		let reply_parts = match &r {
@@ -846,7 +848,7 @@ impl Hist {
 		let r = guarded(|| self.s.with(r_i, |b, m| foreign::receive_tx(b, m, &s1, dest_name, false)));
 		let rc = rc_of(&r);
 		if let Ok(Ok(s2)) = &r {
-			self.flights[f].s2 = Some(s2.clone());
+			self.flights[f].s2 = Some(wire(s2));
 		}
 		self.record(
 			r_i,
@@ -925,7 +927,7 @@ impl Hist {
 		let r = guarded(|| self.s.with(r_i, |b, m| foreign::receive_tx(b, m, &s1, None, false)));
 		let rc = rc_of(&r);
 		if let Ok(Ok(s2)) = &r {
-			self.flights[f].s2 = Some(s2.clone());
+			self.flights[f].s2 = Some(wire(s2));
 		}
 		self.record(
 			r_i,
@@ -1012,7 +1014,7 @@ impl Hist {
 		let r = guarded(|| self.s.with(r_i, |b, m| foreign::receive_tx(b, m, &s1, None, false)));
 		let rc = rc_of(&r);
 		if let Ok(Ok(s2)) = &r {
-			self.flights[f].s2 = Some(s2.clone());
+			self.flights[f].s2 = Some(wire(s2));
 		}
 		self.record(
 			r_i,
